@@ -14,7 +14,9 @@ def run (_tag : String) (kv : KV) : String :=
   let point := kv.getD "point" "idle"
   let grpc := kv.getD "proto" "netrpc" != "netrpc"
   -- the host's goroutines after the process died (from the state in which everything is still running)
-  let dead : State := { init with procAlive := false }
+  let dead : State :=
+    if point = "extra-stdout" then (runFrom P init [.extraLine, .extraLine, .extraLine, .procDies]).getD { init with procAlive := false }
+    else { init with procAlive := false }
   let fin := settle P dead
   let ex := s!"exited={showBool fin.exited}"
   let ctx := if grpc then s!" ctx={showBool fin.ctxCancelled}" else ""
